@@ -1,2 +1,278 @@
 // In-crate child probe of acmed/src/account.rs (feature breard_r_acmed_verif): private access to the parent module.
+// C11: the real `Account::load` / `save` / `storage::fetch` and the real setters, dumped field-wise.
+// Nothing is re-implemented: the dump reads the pub fields of `Account` and calls the crate's own
+// `private_key_to_der`, `hash_key`, `jwk_public_key`.
 #![allow(dead_code, unused_imports)]
+use super::*;
+use serde_json::{json, Value};
+use std::time::{Duration, UNIX_EPOCH};
+
+fn hex(b: &[u8]) -> String {
+	b.iter().map(|x| format!("{x:02x}")).collect()
+}
+
+fn unhex(s: &str) -> Vec<u8> {
+	let c: Vec<u8> = s.bytes().collect();
+	c.chunks(2)
+		.filter(|p| p.len() == 2)
+		.map(|p| u8::from_str_radix(std::str::from_utf8(p).unwrap_or("0"), 16).unwrap_or(0))
+		.collect()
+}
+
+fn shex(s: &str) -> String {
+	hex(s.as_bytes())
+}
+
+fn time_json(t: SystemTime) -> Value {
+	match t.duration_since(UNIX_EPOCH) {
+		Ok(d) => json!({"secs": d.as_secs().to_string(), "nanos": d.subsec_nanos()}),
+		Err(_) => json!({"before_epoch": true}),
+	}
+}
+
+fn time_of(v: &Value) -> Option<SystemTime> {
+	if v.is_null() {
+		return None;
+	}
+	let secs = match &v["secs"] {
+		Value::String(s) => s.parse::<u64>().ok()?,
+		x => x.as_u64()?,
+	};
+	let nanos = v["nanos"].as_u64().unwrap_or(0) as u32;
+	UNIX_EPOCH.checked_add(Duration::new(secs, nanos))
+}
+
+fn key_json(k: &AccountKey) -> Result<Value, String> {
+	let der = k.key.private_key_to_der().map_err(|e| e.message)?;
+	Ok(json!({
+		"creation": time_json(k.creation_date),
+		"key": hex(&der),
+		"alg": shex(&k.signature_algorithm.to_string()),
+	}))
+}
+
+fn key_info(k: &AccountKey) -> Value {
+	json!({
+		"key_type": k.key.key_type.to_string(),
+		"alg": k.signature_algorithm.to_string(),
+		"key_hash": hash_key(k).map(|h| hex(&h)).unwrap_or_default(),
+		"jwk": k.key.jwk_public_key().ok(),
+	})
+}
+
+/// Field-wise dump in the shape of `Model/Bincode.lean` `Account` (byte strings in hex; the
+/// endpoint map sorted by name).
+pub fn dump(a: &Account) -> Result<Value, String> {
+	let mut names: Vec<&String> = a.endpoints.keys().collect();
+	names.sort();
+	let mut eps = vec![];
+	for n in names {
+		let e = &a.endpoints[n];
+		eps.push(json!([shex(n), {
+			"creation": time_json(e.creation_date),
+			"account_url": shex(&e.account_url),
+			"orders_url": shex(&e.orders_url),
+			"key_hash": hex(&e.key_hash),
+			"contacts_hash": hex(&e.contacts_hash),
+			"eab_hash": hex(&e.external_account_hash),
+		}]));
+	}
+	let contacts: Vec<Value> = a
+		.contacts
+		.iter()
+		.map(|c| json!([shex(&c.contact_type.to_string()), shex(&c.value)]))
+		.collect();
+	let mut past = vec![];
+	for k in &a.past_keys {
+		past.push(key_json(k)?);
+	}
+	let eab = match &a.external_account {
+		Some(e) => json!({"identifier": shex(&e.identifier), "key": hex(&e.key),
+			"alg": shex(&e.signature_algorithm.to_string())}),
+		None => Value::Null,
+	};
+	Ok(json!({
+		"name": shex(&a.name),
+		"endpoints": eps,
+		"contacts": contacts,
+		"current_key": key_json(&a.current_key)?,
+		"past_keys": past,
+		"eab": eab,
+	}))
+}
+
+/// What the harness needs besides the stored fields (computed by the crate's own functions).
+pub fn info(a: &Account) -> Value {
+	json!({
+		"current": key_info(&a.current_key),
+		"past": a.past_keys.iter().map(key_info).collect::<Vec<Value>>(),
+		"contacts_hash": hex(&hash_contacts(&a.contacts)),
+		"eab_hash": a.external_account.as_ref().map(|e| hex(&hash_external_account(e))),
+		"contacts": a.contacts.iter().map(|c| c.to_string()).collect::<Vec<String>>(),
+	})
+}
+
+fn file_manager(dir: &str, name: &str) -> FileManager {
+	FileManager {
+		account_name: name.to_string(),
+		account_directory: dir.to_string(),
+		crt_name: String::new(),
+		crt_name_format: String::new(),
+		crt_directory: String::new(),
+		crt_key_type: String::new(),
+		cert_file_mode: 0o644,
+		cert_file_owner: None,
+		cert_file_group: None,
+		cert_file_ext: None,
+		pk_file_mode: 0o600,
+		pk_file_owner: None,
+		pk_file_group: None,
+		pk_file_ext: None,
+		hooks: vec![],
+		env: HashMap::new(),
+	}
+}
+
+fn contacts_of(v: &Value) -> Vec<(String, String)> {
+	v.as_array()
+		.map(|a| {
+			a.iter()
+				.map(|p| {
+					(
+						p[0].as_str().unwrap_or("").to_string(),
+						p[1].as_str().unwrap_or("").to_string(),
+					)
+				})
+				.collect()
+		})
+		.unwrap_or_default()
+}
+
+fn eab_of(v: &Value) -> Result<Option<ExternalAccount>, String> {
+	if v.is_null() {
+		return Ok(None);
+	}
+	Ok(Some(ExternalAccount {
+		identifier: v["identifier"].as_str().unwrap_or("").to_string(),
+		key: unhex(v["key_hex"].as_str().unwrap_or("")),
+		signature_algorithm: v["alg"]
+			.as_str()
+			.unwrap_or("HS256")
+			.parse()
+			.map_err(|e: Error| e.message)?,
+	}))
+}
+
+fn opt_s(v: &Value) -> Option<String> {
+	v.as_str().map(|s| s.to_string())
+}
+
+/// The real setters, in the order `register_account` uses them.
+fn shape(a: &mut Account, eps: &Value) -> Result<(), String> {
+	for e in eps.as_array().cloned().unwrap_or_default() {
+		let n = e["name"].as_str().unwrap_or("");
+		a.add_endpoint_name(n);
+		if let Some(u) = e["url"].as_str() {
+			a.set_account_url(n, u).map_err(|x| x.message)?;
+		}
+		if let Some(u) = e["orders"].as_str() {
+			a.set_orders_url(n, u).map_err(|x| x.message)?;
+		}
+		if e["key_hash"].as_bool().unwrap_or(false) {
+			a.update_key_hash(n).map_err(|x| x.message)?;
+		}
+		if e["contacts_hash"].as_bool().unwrap_or(false) {
+			a.update_contacts_hash(n).map_err(|x| x.message)?;
+		}
+		if e["eab_hash"].as_bool().unwrap_or(false) {
+			a.update_external_account_hash(n).map_err(|x| x.message)?;
+		}
+		if let Some(t) = time_of(&e["creation"]) {
+			// pub field; no setter exists (the crate itself only ever stores UNIX_EPOCH here)
+			a.get_endpoint_mut(n).map_err(|x| x.message)?.creation_date = t;
+		}
+	}
+	Ok(())
+}
+
+fn account_path(dir: &str) -> Vec<String> {
+	let mut v: Vec<String> = std::fs::read_dir(dir)
+		.map(|rd| {
+			rd.filter_map(|e| e.ok())
+				.map(|e| e.path().display().to_string())
+				.collect()
+		})
+		.unwrap_or_default();
+	v.sort();
+	v
+}
+
+/// op account_roundtrip.  input: dir, name, contacts [[type,value]], eab, stages [{key_type,
+/// sig_alg?, contacts?, eab?, endpoints [...]}].  Stage 0 goes through `Account::load` without a
+/// file (fresh key); every later stage saves and re-loads with that stage's key type (real
+/// `fetch` + `update_keys` + `save`).  Then: dump, `save()`, the file's bytes.
+pub async fn roundtrip(input: &Value) -> Value {
+	match roundtrip_inner(input).await {
+		Ok(v) => v,
+		Err(e) => json!({"err": e}),
+	}
+}
+
+async fn roundtrip_inner(input: &Value) -> Result<Value, String> {
+	let dir = input["dir"].as_str().unwrap_or("");
+	let name = input["name"].as_str().unwrap_or("");
+	std::fs::create_dir_all(dir).map_err(|e| e.to_string())?;
+	let fm = file_manager(dir, name);
+	let stages = input["stages"].as_array().cloned().unwrap_or_default();
+	let mut acc: Option<Account> = None;
+	for st in stages.iter() {
+		let contacts = contacts_of(if st["contacts"].is_null() { &input["contacts"] } else { &st["contacts"] });
+		let eab = eab_of(if st.get("eab").is_none() { &input["eab"] } else { &st["eab"] })?;
+		if let Some(a) = &acc {
+			a.save().await.map_err(|e| e.message)?;
+		}
+		let mut a = Account::load(&fm, name, &contacts, &opt_s(&st["key_type"]), &opt_s(&st["sig_alg"]), &eab)
+			.await
+			.map_err(|e| e.message)?;
+		shape(&mut a, &st["endpoints"])?;
+		acc = Some(a);
+	}
+	let a = acc.ok_or("no stage")?;
+	let before = dump(&a)?;
+	let inf = info(&a);
+	a.save().await.map_err(|e| e.message)?;
+	let bytes = crate::storage::get_account_data(&fm).await.map_err(|e| e.message)?;
+	Ok(json!({"before": before, "info": inf, "file_hex": hex(&bytes), "files": account_path(dir)}))
+}
+
+/// op account_reload: a fresh `storage::fetch` (the stored state as it is) and a fresh
+/// `Account::load` with the given configuration values (what a restart does).
+pub async fn reload(input: &Value) -> Value {
+	let dir = input["dir"].as_str().unwrap_or("");
+	let name = input["name"].as_str().unwrap_or("");
+	let fm = file_manager(dir, name);
+	let fetched = match storage::fetch(&fm, name).await {
+		Ok(Some(a)) => match dump(&a) {
+			Ok(d) => json!({"dump": d, "info": info(&a)}),
+			Err(e) => json!({"err": e}),
+		},
+		Ok(None) => json!({"absent": true}),
+		Err(e) => json!({"refused": e.message}),
+	};
+	if input["fetch_only"].as_bool().unwrap_or(false) {
+		return json!({"fetched": fetched});
+	}
+	let contacts = contacts_of(&input["contacts"]);
+	let eab = match eab_of(&input["eab"]) {
+		Ok(e) => e,
+		Err(e) => return json!({"err": e}),
+	};
+	let after = match Account::load(&fm, name, &contacts, &opt_s(&input["key_type"]), &opt_s(&input["sig_alg"]), &eab).await {
+		Ok(a) => match dump(&a) {
+			Ok(d) => json!({"dump": d, "info": info(&a)}),
+			Err(e) => json!({"err": e}),
+		},
+		Err(e) => json!({"refused": e.message}),
+	};
+	json!({"fetched": fetched, "after": after})
+}
